@@ -1034,6 +1034,12 @@ func execHistory(id string, c *Case) (nreq int) {
 		}
 		if hit != nil {
 			run.Count("corrupt:" + c.Cor.Field + ":" + o.Kind + ":" + hit.Q.M + ":" + hit.Q.EP.Kind)
+			if hit.Q.EP.Kind == "man" && strings.HasPrefix(hit.Q.EP.Arg, "sha256-") {
+				run.Count("tagschema:index-response-corrupted")
+				if mustFail(c, o, *hit) {
+					run.Count("tagschema:index-corruption-must-fail")
+				}
+			}
 			// a 404 is an answer the protocol defines: Exists reports "not there" instead of failing
 			notFound := (c.Cor.Field == "name-unknown" || (c.Cor.Field == "status" && c.Cor.Arg == "404")) &&
 				((o.Kind == "exists" && res.Str == "bool:0") ||
@@ -1052,6 +1058,9 @@ func execHistory(id string, c *Case) (nreq int) {
 				run.Count("tagschema:preds-judged")
 			} else if o.CI >= 0 && c.Pool[o.CI].subj != nil && (o.Kind == "push" || o.Kind == "pushref") {
 				run.Count("tagschema:push-with-subject-judged")
+			} else if o.Kind == "delete" && exp == "ok" && len(tr) >= 3 {
+				// (GET manifest, [ping,] GET referrers tag, ..., DELETE): a stored manifest with a subject
+				run.Count("tagschema:delete-with-subject-judged")
 			}
 		}
 		if exp == "?" { // inaccurate descriptor with a state effect the property does not fix
@@ -2328,7 +2337,8 @@ func main() {
 	if run.Replay == "" {
 		floors := map[string]int{"seek:r": 1000, "seek:s": 1000, "seek:position-unchanged": 50, "seek:read-eof-with-data": 50, "seek:reconnect": 200,
 			"seek:corrupt:status": 5, "seek:corrupt:len-inc": 3, "location:url": 200, "grammar:allowed": 200, "grammar:rejected": 200,
-			"opt:limit-near-manifest-size": 50, "tagschema:preds-judged": 30, "tagschema:push-with-subject-judged": 50, "reader:opaque": 100, "route:manifests": 100, "route:blobs": 100, "warnings:delivered": 100}
+			"opt:limit-near-manifest-size": 50, "tagschema:preds-judged": 30, "tagschema:push-with-subject-judged": 50,
+			"tagschema:delete-with-subject-judged": 20, "tagschema:index-corruption-must-fail": 20, "reader:opaque": 100, "route:manifests": 100, "route:blobs": 100, "warnings:delivered": 100}
 		var low []string
 		for k, v := range floors {
 			if run.Dist[k] < v {
